@@ -308,10 +308,11 @@ example :
 /-- the hypotheses of `runGroups_err_handler_done` hold on the first run: main phase error, handler named,
     handler ended "normally" although its own step failed -/
 example :
-    ∃ s1 s2 e, mainPhase 40 demoProg "main" ["a", "b", "c"] (some "good") { stack := ["main"] } = (s1, .err e false) ∧
-      hasFailureGroup (some "bad") = true ∧
-      runFailureGroup 40 demoProg "main" (some "bad") s1 = (s2, .ok) ∧ e.name = "E1" ∧ s2.nextExc = 2 :=
-  ⟨_, _, _, rfl, rfl, rfl, by decide +kernel, by decide +kernel⟩
+    let r1 := mainPhase 40 demoProg "main" ["a", "b", "c"] (some "good") { stack := ["main"] }
+    let r2 := runFailureGroup 40 demoProg "main" (some "bad") r1.1
+    r1.2 = .err ⟨0, "E1", "boom b2"⟩ false ∧ hasFailureGroup (some "bad") = true ∧
+      r2.2 = .ok ∧ r2.1.nextExc = 2 := by
+  decide +kernel
 
 /-- the defaulting rule on the four interesting argument patterns -/
 example :
